@@ -95,3 +95,193 @@ def binding_positions(src):
     idpos = set((l, c) for l, c, _ in ids)
     assert binds <= idpos, binds - idpos
     return binds, ids
+
+
+# ---------------------------------------------------------------- Reference-side line table (claimed; TLC verifies it)
+def line_starts(text):
+    """0-based offsets at which a physical line starts (\\n, \\r\\n, \\r end a line)."""
+    out = [0]
+    for m in EOL_RE.finditer(text):
+        out.append(m.end())
+    return out
+
+
+# ---------------------------------------------------------------- observing one jedi Name
+def shape_of(n):
+    """Shape key of a reported name: class of the internal name (+ value wrapper), whether its
+    token lives in another tree than the module it claims, dunder parameter."""
+    nm = n._name
+    sh = type(nm).__name__
+    v = getattr(nm, '_value', None)
+    if v is not None:
+        sh += '/' + type(v).__name__
+    tn = nm.tree_name
+    try:
+        if tn.get_root_node() is not nm.get_root_context().tree_node:
+            sh = 'foreign-tree:' + sh
+    except Exception:  # noqa
+        pass
+    try:
+        d = tn.get_definition()
+        if d is not None and d.type == 'param' and d.name is tn and tn.value.startswith('__'):
+            sh = 'dunder-param'
+    except Exception:  # noqa
+        pass
+    return sh
+
+
+def observe(n):
+    """-> ('rec', record, meta) | ('skip', reason).  Exceptions propagate to the caller."""
+    nm = n._name
+    line, col = n.line, n.column
+    if line is None:
+        return ('skip', 'no-position')                 # compiled objects, keywords
+    if getattr(nm, 'tree_name', None) is None:
+        return ('skip', 'no-token:' + type(nm).__name__)   # whole-file (module) / anonymous (<lambda>) names
+    mp = n.module_path
+    if mp is None:
+        return ('skip', 'no-path')                     # synthetic modules (namedtuple template), pathless
+    ds = n.get_definition_start_position()
+    de = n.get_definition_end_position()
+    rec = {'ev': 'name', 'line': line, 'col': col, 'name': [ord(c) for c in n.name],
+           'ds': [list(ds)] if ds is not None else [], 'de': [list(de)] if de is not None else [],
+           'lc': [ord(c) for c in n.get_line_code()]}
+    return ('rec', rec, {'file': str(mp), 'shape': shape_of(n), 'name': n.name})
+
+
+def has_error_nodes(module_node):
+    """parso could not parse the source (syntax outside its grammar)."""
+    stack = [module_node]
+    while stack:
+        n = stack.pop()
+        if n.type == 'error_node':
+            return True
+        if n.type == 'error_leaf' and getattr(n, 'token_type', None) not in ('INDENT', 'DEDENT', 'ERROR_DEDENT'):
+            return True        # (a form feed at line start makes parso emit a spurious INDENT error leaf)
+        stack.extend(getattr(n, 'children', ()))
+    return False
+
+
+def parso_anc(module_node):
+    """[(line, col, [ancestor types nearest first, without file_input])] of all name leaves."""
+    out = []
+    leaf = module_node.get_first_leaf()
+    while leaf is not None:
+        if leaf.type == 'name':
+            anc = []
+            p = leaf.parent
+            while p is not None and p.type != 'file_input':
+                anc.append(p.type)
+                p = p.parent
+            out.append((leaf.start_pos[0], leaf.start_pos[1], anc))
+        leaf = leaf.get_next_leaf()
+    return out
+
+
+# ---------------------------------------------------------------- corpus re-encoders
+def _logical_line_first_tokens(toks):
+    """tokens that start a logical line (first significant token after NEWLINE/NL/INDENT/DEDENT/start)."""
+    first = []
+    at_start = True
+    depth = 0
+    for t in toks:
+        if t.type in (tokenize.INDENT, tokenize.DEDENT):
+            continue
+        if t.type in (tokenize.NL, tokenize.COMMENT):
+            continue
+        if t.type == tokenize.NEWLINE:
+            at_start = True
+            continue
+        if t.type == tokenize.ENDMARKER:
+            break
+        if at_start:
+            first.append(t)
+            at_start = False
+    return first
+
+
+def reencode(src, rng, eol='\n', tabs=False, ff=0.0, cont=0.0, nofinal=False, mixed=False):
+    """Re-encode LF source text: indentation tabs, form feeds before top-level statements,
+    backslash continuations between tokens, line ends, missing final newline.
+    Returns the new text or None if the result is not the same program."""
+    lines = src.split('\n')
+    toks = list(tokenize.generate_tokens(io.StringIO(src).readline))
+    edits = []   # (line, col0, col1, replacement) on single lines, non-overlapping
+    firsts = _logical_line_first_tokens(toks)
+    if tabs:
+        ok = all(t.start[1] % 4 == 0 and lines[t.start[0] - 1][:t.start[1]] == ' ' * t.start[1] for t in firsts)
+        if ok:
+            for t in firsts:
+                if t.start[1]:
+                    edits.append((t.start[0], 0, t.start[1], '\t' * (t.start[1] // 4)))
+    if ff:
+        for t in firsts:
+            if t.start[1] == 0 and rng.random() < ff:
+                edits.append((t.start[0], 0, 0, '\f'))
+    if cont:
+        depth = 0
+        fdepth = 0
+        prev = None
+        for t in toks:
+            if t.type == getattr(tokenize, 'FSTRING_START', -1):
+                fdepth += 1
+            if prev is not None and depth == 0 and fdepth == 0 and prev.end[0] == t.start[0] \
+                    and prev.type not in (tokenize.INDENT, tokenize.DEDENT, tokenize.NEWLINE, tokenize.NL,
+                                          tokenize.COMMENT) \
+                    and t.type not in (tokenize.NEWLINE, tokenize.NL, tokenize.COMMENT, tokenize.ENDMARKER,
+                                       tokenize.INDENT, tokenize.DEDENT) \
+                    and prev.start[0] == prev.end[0] and rng.random() < cont:
+                edits.append((t.start[0], prev.end[1], t.start[1], ' \\\n      '))
+            if t.type == getattr(tokenize, 'FSTRING_END', -1):
+                fdepth -= 1
+            if t.type == tokenize.OP:
+                if t.string in '([{':
+                    depth += 1
+                elif t.string in ')]}':
+                    depth -= 1
+            prev = t
+    for (ln, c0, c1, rep) in sorted(edits, reverse=True):
+        s = lines[ln - 1]
+        lines[ln - 1] = s[:c0] + rep + s[c1:]
+    new = '\n'.join(lines)
+    if mixed:
+        parts = new.split('\n')
+        new = ''.join(p + rng.choice(['\n', '\r\n', '\r']) for p in parts[:-1]) + parts[-1]
+    elif eol != '\n':
+        new = new.replace('\n', eol)
+    if nofinal:
+        new = new.rstrip('\r\n')
+    try:
+        if ast.dump(ast.parse(norm_eol(new))) != ast.dump(ast.parse(src)):
+            return None
+    except (SyntaxError, ValueError):
+        return None
+    return new
+
+
+def windows(src, maxlen, rng):
+    """A run of complete top-level statements of at most maxlen code points (LF text)."""
+    if len(src) <= maxlen:
+        return src
+    tree = ast.parse(src)
+    lines = src.split('\n')
+    spans = []
+    for node in tree.body:
+        lo = min([node.lineno] + [d.lineno for d in getattr(node, 'decorator_list', [])])
+        spans.append((lo, node.end_lineno))
+    if not spans:
+        return None
+    i = rng.randrange(len(spans))
+    j = i
+    def text(i, j):
+        return '\n'.join(lines[spans[i][0] - 1:spans[j][1]]) + '\n'
+    if len(text(i, i)) > maxlen:
+        cands = [k for k in range(len(spans)) if len(text(k, k)) <= maxlen]
+        if not cands:
+            return None
+        i = j = rng.choice(cands)
+    while j + 1 < len(spans) and len(text(i, j + 1)) <= maxlen:
+        j += 1
+    while i > 0 and len(text(i - 1, j)) <= maxlen:
+        i -= 1
+    return text(i, j)
